@@ -43,4 +43,476 @@ theorem slice_of_drop {α} {l : List α} {i : Nat} {a b : List α} (h : l.drop i
   rw [List.drop_take, h]
   simp
 
+/-! ## §1 unquoted field on a loaded buffer -/
+
+theorem ens1_at (st : St) (hf : st.future = []) (h : st.cursor < st.data.length) : ens1 st = (st, none) := by
+  rw [ens1_loaded _ hf]
+  have : ¬ st.cursor ≥ st.data.length := by omega
+  simp only [this, ↓reduceIte]
+
+/-- Step 1. An unquoted field `f` (no delimiter, no LF) followed by `term` ∈ {delim, LF}: the
+unquoted scanner stops right after `term`, returns the slice from `fieldStart` to the terminator. -/
+theorem unq_field (delim : Byte) : ∀ (f : List Byte) (fuel : Nat) (fs : FS) (term : Byte) (rest : List Byte),
+    fs.st.future = [] → (∀ c ∈ f, c ≠ delim ∧ c ≠ LF) → (term = delim ∨ term = LF) →
+    fs.st.data.drop fs.st.cursor = f ++ term :: rest → f.length < fuel →
+    ∃ fs', unq delim fuel fs = some (fs', true) ∧ fs'.st.data = fs.st.data ∧ fs'.st.future = [] ∧
+      fs'.st.cursor = fs.st.cursor + f.length + 1 ∧
+      fs'.field = fs.st.slice fs.fieldStart (fs.st.cursor + f.length) ∧ fs'.err = fs.err ∧
+      fs'.hitEOL = (if term = delim then fs.hitEOL else true) ∧
+      fs'.fieldStart = (if term = delim then fs.st.cursor + f.length + 1 else fs.fieldStart) := by
+  intro f
+  induction f with
+  | nil =>
+    intro fuel fs term rest hf _ ht hd hfu
+    obtain ⟨hlt, hget, _⟩ := drop_cons_inv (by simpa using hd : fs.st.data.drop fs.st.cursor = term :: rest)
+    cases fuel with
+    | zero => simp at hfu
+    | succ n =>
+      unfold unq
+      rw [ens1_at _ hf hlt]
+      simp only [hget]
+      by_cases c1 : term = delim
+      · subst c1
+        simp only [beq_self_eq_true, ↓reduceIte]
+        exact ⟨_, rfl, rfl, hf, by simp, by simp, rfl, rfl, by simp⟩
+      · have c1' : (term == delim) = false := by simpa using c1
+        have c2 : term = LF := by rcases ht with h | h; exact absurd h c1; exact h
+        subst c2
+        simp only [c1', Bool.false_eq_true, ↓reduceIte, beq_self_eq_true]
+        exact ⟨_, rfl, rfl, hf, by simp, by simp, rfl, by simp [c1], by simp [c1]⟩
+  | cons b bs ih =>
+    intro fuel fs term rest hf hall ht hd hfu
+    obtain ⟨hlt, hget, hd'⟩ := drop_cons_inv (by simpa using hd : fs.st.data.drop fs.st.cursor = b :: (bs ++ term :: rest))
+    have hb := hall b (by simp)
+    have hall' : ∀ c ∈ bs, c ≠ delim ∧ c ≠ LF := fun c hc => hall c (by simp [hc])
+    cases fuel with
+    | zero => simp at hfu
+    | succ n =>
+      unfold unq
+      rw [ens1_at _ hf hlt]
+      simp only [hget]
+      have c1 : (b == delim) = false := by simpa using hb.1
+      have c2 : (b == LF) = false := by simpa using hb.2
+      simp only [c1, c2, Bool.false_eq_true, ↓reduceIte]
+      obtain ⟨fs', h1, h2, h3, h4, h5, h6, h7, h8⟩ :=
+        ih n { fs with st := { fs.st with cursor := fs.st.cursor + 1 } } term rest hf hall' ht hd'
+          (by simp at hfu; omega)
+      refine ⟨fs', h1, h2, h3, ?_, ?_, h6, h7, ?_⟩
+      · rw [h4]; simp only [List.length_cons]; omega
+      · rw [h5]; simp only [St.slice, List.length_cons]
+        have : fs.st.cursor + 1 + bs.length = fs.st.cursor + (bs.length + 1) := by omega
+        rw [this]
+      · rw [h8]; simp only [List.length_cons]
+        have : fs.st.cursor + 1 + bs.length + 1 = fs.st.cursor + (bs.length + 1) + 1 := by omega
+        rw [this]
+
+/-! ## §2 quoted field on a loaded buffer -/
+
+/-- functional scanner for the quoted loop (the one of `Sim.qscan`, over `Full`'s types): `rest` = unread
+bytes, `acc` = field so far, `qc` = consecutive quotes, `p` = the byte the next "keep" appends
+(= tape[writeCursor]). Returns field, hitEOL, err, number of unread bytes left. -/
+def qscan (delim : Byte) : List Byte → List Byte → Nat → Byte → List Byte × Bool × Option RErr × Nat
+  | [], acc, _, _ => (acc, true, some .eof, 0)
+  | [_], acc, _, _ => (acc, true, some .eof, 1)          -- the last byte is never examined
+  | b :: b' :: rest, acc, qc, p =>
+    if b == delim then
+      (if qc % 2 != 0 then (acc, false, none, (b' :: rest).length) else qscan delim (b' :: rest) (acc ++ [p]) 0 b')
+    else if b == LF then
+      (if qc % 2 != 0 then (acc, true, none, (b' :: rest).length) else qscan delim (b' :: rest) (acc ++ [p]) 0 b')
+    else if b == CR then qscan delim (b' :: rest) acc qc p
+    else if b == QUOTE then
+      (if (qc + 1) % 2 == 1 then qscan delim (b' :: rest) acc (qc + 1) p else qscan delim (b' :: rest) (acc ++ [p]) 0 b')
+    else qscan delim (b' :: rest) (acc ++ [p]) 0 b'
+
+/-- What the tape machine returns, in terms of the scanner's result `q`: the `Res`, and a final state
+that is still loaded, has consumed all but `q.2.2.2` bytes, and is untouched from its cursor on. -/
+def QOut (r : Option (Full.Res × St)) (q : List Byte × Bool × Option RErr × Nat) (orig : List Byte) (c0 : Nat) : Prop :=
+  ∃ s', r = some (⟨q.1, q.2.1, q.2.2.1⟩, s') ∧ s'.future = [] ∧ s'.cursor + q.2.2.2 = orig.length ∧
+    s'.data.length = orig.length ∧ c0 ≤ s'.cursor ∧ s'.data.drop s'.cursor = orig.drop s'.cursor
+
+/-- lock-step: `Full.quoted` on a loaded state vs. the functional scanner (as `Sim.quoted_eq_qscan`,
+with the facts about the final state that the row loop needs). -/
+theorem quoted_eq_qscan (delim : Byte) (fuel : Nat) : ∀ (s : St) (start w qc : Nat) (acc : List Byte) (p : Byte),
+    s.future = [] → start ≤ w → w ≤ s.cursor → s.cursor ≤ s.data.length →
+    (s.data.take w).drop start = acc → (w < s.data.length → s.data[w]? = some p) →
+    s.data.length - s.cursor < fuel →
+    QOut (quoted delim fuel s start w qc) (qscan delim (s.data.drop s.cursor) acc qc p) s.data s.cursor := by
+  induction fuel with
+  | zero => intro s start w qc acc p _ _ _ _ _ _ h; omega
+  | succ n ih =>
+    intro s start w qc acc p hf hsw hwc hcl hacc hp hfu
+    unfold quoted
+    rw [ensure2_loaded _ s hf (by omega)]
+    by_cases hE : s.cursor + 1 ≥ s.data.length
+    · -- EOF branch: at most one unread byte
+      simp only [hE, ↓reduceIte]
+      have hlen : (s.data.drop s.cursor).length ≤ 1 := by simp; omega
+      cases hd : s.data.drop s.cursor with
+      | nil =>
+        have : s.cursor = s.data.length := by
+          have := congrArg List.length hd; simp at this; omega
+        exact ⟨s, by simp [qscan, St.slice, hacc], hf, by simp [qscan, this], rfl, Nat.le_refl _, rfl⟩
+      | cons x xs =>
+        cases xs with
+        | nil =>
+          have : s.cursor + 1 = s.data.length := by
+            have := congrArg List.length hd; simp at this; omega
+          exact ⟨s, by simp [qscan, St.slice, hacc], hf, by simp [qscan, this], rfl, Nat.le_refl _, rfl⟩
+        | cons y ys => rw [hd] at hlen; simp at hlen
+    · simp only [hE, ↓reduceIte]
+      have h2 : s.cursor + 1 < s.data.length := by omega
+      have hc0 : s.cursor < s.data.length := by omega
+      rw [List.getElem?_eq_getElem hc0]
+      simp only
+      generalize hch : s.data[s.cursor] = ch
+      generalize hnb : s.data[s.cursor + 1] = nb
+      generalize hR : s.data.drop (s.cursor + 2) = R
+      have e2 : s.data.drop (s.cursor + 1) = nb :: R := by
+        rw [List.drop_eq_getElem_cons h2, hnb, hR]
+      have e1 : s.data.drop s.cursor = ch :: nb :: R := by
+        rw [List.drop_eq_getElem_cons hc0, hch, e2]
+      have hskip : ∀ qc', QOut (quoted delim n { s with cursor := s.cursor + 1 } start w qc')
+          (qscan delim (nb :: R) acc qc' p) s.data s.cursor := by
+        intro qc'
+        have := ih { s with cursor := s.cursor + 1 } start w qc' acc p hf hsw (by show w ≤ s.cursor + 1; omega)
+          (by show s.cursor + 1 ≤ s.data.length; omega) hacc hp (by show s.data.length - (s.cursor + 1) < n; omega)
+        simp only [e2] at this
+        obtain ⟨s', a1, a2, a3, a4, a5, a6⟩ := this
+        exact ⟨s', a1, a2, a3, a4, by omega, a6⟩
+      have hkeep : QOut
+          (if (w + 1 != s.cursor + 1) = true then
+            match s.data[s.cursor + 1]? with
+            | none => none
+            | some nb' => quoted delim n { s with cursor := s.cursor + 1, data := s.data.set (w + 1) nb' } start (w + 1) 0
+          else quoted delim n { s with cursor := s.cursor + 1 } start (w + 1) 0)
+          (qscan delim (nb :: R) (acc ++ [p]) 0 nb) s.data s.cursor := by
+        have hwl : w < s.data.length := by omega
+        have hpw : s.data[w]? = some p := hp hwl
+        have hacc' : ∀ dta : List Byte, dta.take (w + 1) = s.data.take (w + 1) → (dta.take (w + 1)).drop start = acc ++ [p] := by
+          intro dta hdt
+          rw [hdt, List.take_add_one, hpw]
+          simp only [Option.toList_some, List.drop_append]
+          rw [hacc]
+          have : start - (s.data.take w).length = 0 := by simp; omega
+          rw [this]; rfl
+        by_cases hne : (w + 1 != s.cursor + 1) = true
+        · simp only [hne, ↓reduceIte]
+          rw [List.getElem?_eq_getElem h2, hnb]
+          simp only
+          have hw1 : w + 1 < s.cursor + 1 := by
+            have : w + 1 ≠ s.cursor + 1 := by simpa using hne
+            omega
+          have := ih { s with cursor := s.cursor + 1, data := s.data.set (w + 1) nb } start (w + 1) 0 (acc ++ [p]) nb hf
+            (by omega) (by show w + 1 ≤ s.cursor + 1; omega) (by show s.cursor + 1 ≤ (s.data.set (w + 1) nb).length; simp; omega)
+            (by show ((s.data.set (w + 1) nb).take (w + 1)).drop start = acc ++ [p]
+                exact hacc' _ (by rw [List.take_set_of_le (Nat.le_refl _)]))
+            (by intro _; show (s.data.set (w + 1) nb)[w + 1]? = some nb; simp [List.getElem?_set]; omega)
+            (by show (s.data.set (w + 1) nb).length - (s.cursor + 1) < n; simp; omega)
+          have hdrop : (s.data.set (w + 1) nb).drop (s.cursor + 1) = nb :: R := by
+            rw [List.drop_set_of_lt hw1, e2]
+          simp only [hdrop] at this
+          obtain ⟨s', a1, a2, a3, a4, a5, a6⟩ := this
+          simp only [List.length_set] at a3 a4
+          refine ⟨s', a1, a2, a3, a4, by omega, ?_⟩
+          rw [a6, List.drop_set_of_lt (by omega)]
+        · simp only [hne, Bool.false_eq_true, ↓reduceIte]
+          have hw1 : w + 1 = s.cursor + 1 := by
+            cases hv : (w + 1 != s.cursor + 1) with
+            | true => exact absurd hv hne
+            | false => simpa using hv
+          have := ih { s with cursor := s.cursor + 1 } start (w + 1) 0 (acc ++ [p]) nb hf (by omega)
+            (by show w + 1 ≤ s.cursor + 1; omega) (by show s.cursor + 1 ≤ s.data.length; omega)
+            (hacc' _ rfl)
+            (by intro _; show s.data[w + 1]? = some nb; rw [hw1, List.getElem?_eq_getElem h2, hnb])
+            (by show s.data.length - (s.cursor + 1) < n; omega)
+          simp only [e2] at this
+          obtain ⟨s', a1, a2, a3, a4, a5, a6⟩ := this
+          exact ⟨s', a1, a2, a3, a4, by omega, a6⟩
+      have hslice : ({ s with cursor := s.cursor + 1 } : St).slice start w = acc := hacc
+      have hrest : (nb :: R).length = s.data.length - (s.cursor + 1) := by
+        rw [← e2]; simp
+      have hret : ∀ eol : Bool, QOut (some (⟨({ s with cursor := s.cursor + 1 } : St).slice start w, eol, none⟩,
+          ({ s with cursor := s.cursor + 1 } : St))) (acc, eol, none, (nb :: R).length) s.data s.cursor := by
+        intro eol
+        refine ⟨{ s with cursor := s.cursor + 1 }, by rw [hslice], hf, ?_, rfl, by show s.cursor ≤ s.cursor + 1; omega, rfl⟩
+        show s.cursor + 1 + (nb :: R).length = s.data.length
+        rw [hrest]; omega
+      rw [e1]
+      simp only [qscan]
+      by_cases c1 : (ch == delim) = true
+      · simp only [c1, ↓reduceIte]
+        by_cases c2 : (qc % 2 != 0) = true
+        · simp only [c2, ↓reduceIte]; exact hret _
+        · simp only [c2, Bool.false_eq_true, ↓reduceIte]; exact hkeep
+      · simp only [c1, Bool.false_eq_true, ↓reduceIte]
+        by_cases c3 : (ch == LF) = true
+        · simp only [c3, ↓reduceIte]
+          by_cases c2 : (qc % 2 != 0) = true
+          · simp only [c2, ↓reduceIte]; exact hret _
+          · simp only [c2, Bool.false_eq_true, ↓reduceIte]; exact hkeep
+        · simp only [c3, Bool.false_eq_true, ↓reduceIte]
+          by_cases c4 : (ch == CR) = true
+          · simp only [c4, ↓reduceIte]; exact hskip qc
+          · simp only [c4, Bool.false_eq_true, ↓reduceIte]
+            by_cases c5 : (ch == QUOTE) = true
+            · simp only [c5, ↓reduceIte]
+              by_cases c6 : ((qc + 1) % 2 == 1) = true
+              · simp only [c6, ↓reduceIte]; exact hskip (qc + 1)
+              · simp only [c6, Bool.false_eq_true, ↓reduceIte]; exact hkeep
+            · simp only [c5, Bool.false_eq_true, ↓reduceIte]; exact hkeep
+
+/-- RFC 4180 escaping of a field's content inside quotes (as `renderField true` writes it). -/
+def esc (f : List Byte) : List Byte := f.flatMap (fun c => if c == 34 then [34, 34] else [c])
+
+theorem esc_cons (b : Byte) (bs : List Byte) : esc (b :: bs) = (if b == 34 then [34, 34] else [b]) ++ esc bs := by
+  simp [esc]
+
+theorem renderField_true (f : List Byte) : renderField true f = QUOTE :: (esc f ++ [QUOTE]) := by
+  simp [renderField, esc, QUOTE]
+
+def hd (l : List Byte) : Byte := l.headD 0
+
+/-- the functional scanner walks through escaped content and accumulates exactly the content
+(as `Sim.qscan_content`) -/
+theorem qscan_content (delim : Byte) (hdq : delim ≠ 34) : ∀ (content tail acc : List Byte), CR ∉ content → tail ≠ [] →
+    qscan delim (esc content ++ tail) acc 0 (hd (esc content ++ tail)) = qscan delim tail (acc ++ content) 0 (hd tail) := by
+  intro content
+  induction content with
+  | nil => intro tail acc _ _; simp [esc]
+  | cons b bs ih =>
+    intro tail acc hcr ht
+    have hb : (b == CR) = false := by
+      cases hv : b == CR with
+      | false => rfl
+      | true => exact absurd (by simp at hv; simp [hv]) hcr
+    have hcr' : CR ∉ bs := fun h => hcr (List.mem_cons_of_mem _ h)
+    obtain ⟨r0, rs, hr⟩ : ∃ r0 rs, esc bs ++ tail = r0 :: rs := by
+      cases h : esc bs ++ tail with
+      | nil => simp at h; exact absurd h.2 ht
+      | cons r0 rs => exact ⟨r0, rs, rfl⟩
+    have h34 : ¬ (34 : UInt8) = delim := fun h => hdq h.symm
+    by_cases hq : (b == 34) = true
+    · have hbq : b = 34 := by simpa using hq
+      subst hbq
+      simp only [esc_cons, beq_self_eq_true, ↓reduceIte, List.cons_append, List.nil_append, hd, List.headD_cons]
+      rw [hr]
+      have step1 : qscan delim (34 :: 34 :: r0 :: rs) acc 0 34 = qscan delim (34 :: r0 :: rs) acc 1 34 := by
+        simp [qscan, h34, QUOTE, LF, CR]
+      have step2 : qscan delim (34 :: r0 :: rs) acc 1 34 = qscan delim (r0 :: rs) (acc ++ [34]) 0 r0 := by
+        simp [qscan, h34, QUOTE, LF, CR]
+      rw [step1, step2, ← hr]
+      have := ih tail (acc ++ [34]) hcr' ht
+      rw [hr] at this ⊢
+      simp only [hd, List.headD_cons] at this
+      rw [this]; simp
+    · have hq' : (b == 34) = false := by simpa using hq
+      have hq'' : (b == QUOTE) = false := hq'
+      simp only [esc_cons, hq', Bool.false_eq_true, ↓reduceIte, List.cons_append, List.nil_append, hd, List.headD_cons]
+      rw [hr]
+      have step : qscan delim (b :: r0 :: rs) acc 0 b = qscan delim (r0 :: rs) (acc ++ [b]) 0 r0 := by
+        simp only [qscan]
+        by_cases d : (b == delim) = true
+        · simp [d]
+        · simp only [d, Bool.false_eq_true, ↓reduceIte]
+          by_cases l : (b == LF) = true
+          · simp [l]
+          · simp [l, hb, hq'']
+      rw [step, ← hr]
+      have := ih tail (acc ++ [b]) hcr' ht
+      rw [hr] at this ⊢
+      simp only [hd, List.headD_cons] at this
+      rw [this]; simp
+
+/-- the closing quote followed by a terminator and at least one more byte -/
+theorem qscan_close (delim : Byte) (hd1 : delim ≠ 34) (hd2 : delim ≠ 10) (acc : List Byte) (term r0 : Byte) (rs : List Byte)
+    (ht : term = delim ∨ term = LF) :
+    qscan delim (QUOTE :: term :: r0 :: rs) acc 0 QUOTE = (acc, term == LF, none, (r0 :: rs).length) := by
+  have h34 : ¬ (34 : UInt8) = delim := fun h => hd1 h.symm
+  have step1 : qscan delim (QUOTE :: term :: r0 :: rs) acc 0 QUOTE = qscan delim (term :: r0 :: rs) acc 1 QUOTE := by
+    simp [qscan, h34, QUOTE, LF, CR]
+  rw [step1]
+  rcases ht with h | h
+  · subst h
+    have : (term == LF) = false := by simpa [LF] using hd2
+    simp [qscan, this]
+  · subst h
+    have : ¬ (10 : UInt8) = delim := fun h => hd2 h.symm
+    simp [qscan, LF, this]
+
+/-- the closing quote followed by the very last byte of the input: that byte is never examined -/
+theorem qscan_close_eof (delim : Byte) (hd1 : delim ≠ 34) (acc : List Byte) (term : Byte) :
+    qscan delim [QUOTE, term] acc 0 QUOTE = (acc, true, some .eof, 1) := by
+  have h34 : ¬ (34 : UInt8) = delim := fun h => hd1 h.symm
+  simp [qscan, h34, QUOTE, LF, CR]
+
+/-- a rendered quoted field from the opening quote at the cursor: the tape machine's result is the
+scanner's result on closing quote + tail, with the content accumulated -/
+theorem quoted_field_scan (delim : Byte) (hd1 : delim ≠ 34) (fuel : Nat) (s : St) (f tail : List Byte)
+    (hf : s.future = []) (hcr : CR ∉ f)
+    (hdr : s.data.drop s.cursor = QUOTE :: (esc f ++ QUOTE :: tail))
+    (hfu : s.data.length - s.cursor ≤ fuel) :
+    QOut (quoted delim fuel { s with cursor := s.cursor + 1 } (s.cursor + 1) (s.cursor + 1) 0)
+      (qscan delim (QUOTE :: tail) f 0 QUOTE) s.data (s.cursor + 1) := by
+  obtain ⟨hlt, _, hd'⟩ := drop_cons_inv hdr
+  have hne : esc f ++ QUOTE :: tail ≠ [] := by simp
+  have hp : s.cursor + 1 < s.data.length → s.data[s.cursor + 1]? = some (hd (esc f ++ QUOTE :: tail)) := by
+    intro _
+    cases hx : esc f ++ QUOTE :: tail with
+    | nil => exact absurd hx hne
+    | cons x xs =>
+      rw [hx] at hd'
+      rw [(drop_cons_inv hd').2.1]; rfl
+  have := quoted_eq_qscan delim fuel { s with cursor := s.cursor + 1 } (s.cursor + 1) (s.cursor + 1) 0 []
+    (hd (esc f ++ QUOTE :: tail)) hf (Nat.le_refl _) (Nat.le_refl _) (by show s.cursor + 1 ≤ s.data.length; omega)
+    (by simp) hp (by show s.data.length - (s.cursor + 1) < fuel; omega)
+  simp only [hd'] at this
+  rw [qscan_content delim hd1 f (QUOTE :: tail) [] hcr (by simp)] at this
+  simpa [hd] using this
+
+theorem cursor_of_len {α} {l : List α} {c k : Nat} {pre rest : List α} (h : l.drop c = pre ++ rest)
+    (hc : c ≤ l.length) (hk : k + rest.length = l.length) : k = c + pre.length := by
+  have := congrArg List.length h
+  simp at this; omega
+
+/-- Step 2. A rendered quoted field followed by `term` ∈ {delim, LF} and at least one more byte: the
+quoted scanner returns the field's content and stops right after `term`; the buffer from there on is
+untouched. -/
+theorem quoted_field (delim : Byte) (hd1 : delim ≠ 34) (hd2 : delim ≠ 10) (fuel : Nat) (s : St)
+    (f : List Byte) (term r0 : Byte) (rs : List Byte)
+    (hf : s.future = []) (hcr : CR ∉ f) (ht : term = delim ∨ term = LF)
+    (hdr : s.data.drop s.cursor = QUOTE :: (esc f ++ QUOTE :: term :: r0 :: rs))
+    (hfu : s.data.length - s.cursor ≤ fuel) :
+    ∃ s', quoted delim fuel { s with cursor := s.cursor + 1 } (s.cursor + 1) (s.cursor + 1) 0
+        = some (⟨f, term == LF, none⟩, s') ∧
+      s'.future = [] ∧ s'.cursor ≤ s'.data.length ∧ s'.data.drop s'.cursor = r0 :: rs := by
+  have := quoted_field_scan delim hd1 fuel s f (term :: r0 :: rs) hf hcr hdr hfu
+  rw [qscan_close delim hd1 hd2 f term r0 rs ht] at this
+  obtain ⟨s', a1, a2, a3, a4, a5, a6⟩ := this
+  simp only at a1 a3
+  refine ⟨s', a1, a2, by omega, ?_⟩
+  have hd' : s.data.drop s.cursor = (QUOTE :: (esc f ++ [QUOTE, term])) ++ (r0 :: rs) := by
+    rw [hdr]; simp
+  have hc : s.cursor ≤ s.data.length := by have := (drop_cons_inv hdr).1; omega
+  have hk := cursor_of_len hd' hc a3
+  rw [a6, hk]
+  exact drop_add_of_append hd'
+
+/-- Step 2, at the end of the input: a rendered quoted field followed by one last byte. The last
+byte is never examined; the field comes back with `hitEOL` and `eof`. -/
+theorem quoted_field_eof (delim : Byte) (hd1 : delim ≠ 34) (fuel : Nat) (s : St)
+    (f : List Byte) (term : Byte)
+    (hf : s.future = []) (hcr : CR ∉ f)
+    (hdr : s.data.drop s.cursor = QUOTE :: (esc f ++ [QUOTE, term]))
+    (hfu : s.data.length - s.cursor ≤ fuel) :
+    ∃ s', quoted delim fuel { s with cursor := s.cursor + 1 } (s.cursor + 1) (s.cursor + 1) 0
+        = some (⟨f, true, some .eof⟩, s') ∧ s'.future = [] ∧ s'.cursor ≤ s'.data.length := by
+  have := quoted_field_scan delim hd1 fuel s f [term] hf hcr hdr hfu
+  rw [qscan_close_eof delim hd1 f term] at this
+  obtain ⟨s', a1, a2, a3, a4, a5, a6⟩ := this
+  exact ⟨s', a1, a2, by simp only at a3; omega⟩
+
+/-! ## §3 one field through `fnext`, one row through `rowLoop` and `readerNext` -/
+
+/-- loaded reader state at the start of a field, `D` = the unread bytes -/
+structure Ready (fs : FS) (D : List Byte) : Prop where
+  fut : fs.st.future = []
+  eol : fs.hitEOL = false
+  fstart : fs.fieldStart = fs.st.cursor
+  drop : fs.st.data.drop fs.st.cursor = D
+  inb : fs.st.cursor ≤ fs.st.data.length
+  err : fs.err = none
+
+theorem ready_len {fs : FS} {D : List Byte} (h : Ready fs D) : fs.st.data.length - fs.st.cursor = D.length := by
+  rw [← h.drop]; simp
+
+theorem fnext_unquoted (delim : Byte) (hd1 : delim ≠ 34) (hd2 : delim ≠ 10) (fuel : Nat) (fs : FS)
+    (f : List Byte) (term : Byte) (rest : List Byte) (hr : Ready fs (f ++ term :: rest))
+    (hm : mustQuote delim f = false) (ht : term = delim ∨ term = LF) (hfu : (f ++ term :: rest).length ≤ fuel) :
+    ∃ fs', fnext delim fuel fs = some (fs', true) ∧ fs'.field = f ∧ fs'.st.future = [] ∧ fs'.err = none ∧
+      fs'.st.data.drop fs'.st.cursor = rest ∧ fs'.st.cursor ≤ fs'.st.data.length ∧
+      fs'.hitEOL = (term == LF) ∧ (term = delim → fs'.fieldStart = fs'.st.cursor) := by
+  have hall := QF.Props.C13.not_mustQuote hm
+  have hall' : ∀ c ∈ f, c ≠ delim ∧ c ≠ LF := fun c hc => ⟨(hall c hc).1, (hall c hc).2.2.1⟩
+  obtain ⟨x, xs, hx⟩ : ∃ x xs, f ++ term :: rest = x :: xs := by
+    cases h : f ++ term :: rest with
+    | nil => simp at h
+    | cons x xs => exact ⟨x, xs, rfl⟩
+  have hxq : (x == QUOTE) = false := by
+    cases f with
+    | nil =>
+      simp only [List.nil_append, List.cons.injEq] at hx
+      rw [← hx.1]
+      rcases ht with h | h
+      · rw [h]; simpa [QUOTE] using hd1
+      · rw [h]; decide
+    | cons b bs =>
+      simp only [List.cons_append, List.cons.injEq] at hx
+      rw [← hx.1]
+      simpa [QUOTE] using (hall b (by simp)).2.1
+  have hdx := hr.drop
+  rw [hx] at hdx
+  obtain ⟨hlt, hget, _⟩ := drop_cons_inv hdx
+  unfold fnext
+  simp only [hr.eol, Bool.false_eq_true, ↓reduceIte]
+  rw [ens1_at _ hr.fut hlt]
+  simp only [hget, hxq, Bool.false_eq_true, ↓reduceIte]
+  obtain ⟨fs', h1, h2, h3, h4, h5, h6, h7, h8⟩ :=
+    unq_field delim f fuel { fs with st := fs.st, hitEOL := false } term rest hr.fut hall' ht hr.drop (by simp at hfu; omega)
+  have hdrop : fs'.st.data.drop fs'.st.cursor = rest := by
+    rw [h2, h4]
+    have : fs.st.data.drop fs.st.cursor = (f ++ [term]) ++ rest := by rw [hr.drop]; simp
+    have := drop_add_of_append this
+    simpa [Nat.add_assoc] using this
+  have hlen : fs.st.cursor + f.length + 1 ≤ fs.st.data.length := by
+    have := ready_len hr
+    simp at this; omega
+  refine ⟨fs', h1, ?_, h3, by rw [h6, hr.err], hdrop, by rw [h2, h4]; exact hlen, ?_, ?_⟩
+  · rw [h5, hr.fstart]
+    exact slice_of_drop hr.drop
+  · rw [h7]
+    rcases ht with h | h
+    · subst h
+      have : (term == LF) = false := by simpa [LF] using hd2
+      simp [this]
+    · subst h
+      have : ¬ LF = delim := fun h => hd2 (by rw [← h]; rfl)
+      simp [this]
+  · intro h; rw [h8, h4]; simp [h]
+
+theorem fnext_quoted (delim : Byte) (hd1 : delim ≠ 34) (hd2 : delim ≠ 10) (fuel : Nat) (fs : FS)
+    (f : List Byte) (term r0 : Byte) (rs : List Byte)
+    (hr : Ready fs (renderField true f ++ term :: r0 :: rs))
+    (hcr : CR ∉ f) (ht : term = delim ∨ term = LF)
+    (hfu : (renderField true f ++ term :: r0 :: rs).length ≤ fuel) :
+    ∃ fs', fnext delim fuel fs = some (fs', true) ∧ fs'.field = f ∧ fs'.st.future = [] ∧ fs'.err = none ∧
+      fs'.st.data.drop fs'.st.cursor = r0 :: rs ∧ fs'.st.cursor ≤ fs'.st.data.length ∧
+      fs'.hitEOL = (term == LF) ∧ (term = delim → fs'.fieldStart = fs'.st.cursor) := by
+  have hdx : fs.st.data.drop fs.st.cursor = QUOTE :: (esc f ++ QUOTE :: term :: r0 :: rs) := by
+    rw [hr.drop, renderField_true]; simp
+  obtain ⟨hlt, hget, _⟩ := drop_cons_inv hdx
+  obtain ⟨s', q1, q2, q3, q4⟩ := quoted_field delim hd1 hd2 fuel fs.st f term r0 rs hr.fut hcr ht hdx
+    (by rw [ready_len hr]; exact hfu)
+  unfold fnext
+  simp only [hr.eol, Bool.false_eq_true, ↓reduceIte]
+  rw [ens1_at _ hr.fut hlt]
+  simp only [hget, beq_self_eq_true, ↓reduceIte, q1]
+  exact ⟨_, rfl, rfl, q2, rfl, q4, q3, rfl, fun _ => rfl⟩
+
+theorem fnext_quoted_eof (delim : Byte) (hd1 : delim ≠ 34) (fuel : Nat) (fs : FS)
+    (f : List Byte) (term : Byte)
+    (hr : Ready fs (renderField true f ++ [term]))
+    (hcr : CR ∉ f)
+    (hfu : (renderField true f ++ [term]).length ≤ fuel) :
+    ∃ fs', fnext delim fuel fs = some (fs', true) ∧ fs'.field = f ∧ fs'.hitEOL = true ∧ fs'.err = some .eof := by
+  have hdx : fs.st.data.drop fs.st.cursor = QUOTE :: (esc f ++ [QUOTE, term]) := by
+    rw [hr.drop, renderField_true]; simp
+  obtain ⟨hlt, hget, _⟩ := drop_cons_inv hdx
+  obtain ⟨s', q1, q2, q3⟩ := quoted_field_eof delim hd1 fuel fs.st f term hr.fut hcr hdx
+    (by rw [ready_len hr]; exact hfu)
+  unfold fnext
+  simp only [hr.eol, Bool.false_eq_true, ↓reduceIte]
+  rw [ens1_at _ hr.fut hlt]
+  simp only [hget, beq_self_eq_true, ↓reduceIte, q1]
+  exact ⟨_, rfl, rfl, rfl, rfl⟩
+
 end QF.Props.C12Read
